@@ -87,10 +87,35 @@ def _metadata_truth(script, vals, how, where, in_body, extractor, class_level, t
     r = rigm.build('mem', spy=True)
     tr = r.tr
     if not ctx.REAL:
+        # the recording timestamp is the UTC wall clock by the library's convention: a model whose local clock differs
+        trmod.datetime = type('DT', (), {'utcnow': staticmethod(lambda: 'UTC-INSTANT'), 'now': staticmethod(lambda *a: 'LOCAL-INSTANT'),
+                                         'today': staticmethod(lambda: 'LOCAL-INSTANT')})
         trmod.time = Clock([t0, t1], den)
     else:
+        # replay on the real code: a host whose zone is far from UTC, real datetime
+        import os as _os
+        import time as _time
+        _os.environ['TZ'] = 'JST-9'
+        _time.tzset()
         ticks = [float(t0) / den, float(t1) / den]
         trmod.time = lambda: ticks.pop(0) if len(ticks) > 1 else ticks[0]
+    # what ran on this recorder before must not colour the metadata of this run (shard: a replay / a discarded but
+    # completed operation happened first)
+    before = ctx.S('before')
+    if before:
+        warm = sc.Plan([sc.op_of('A', 1), sc.op_of('O', 1)], vals)
+        if before == 'discarded':
+            warm.faults = [('discard_op', 1)]
+        wr = sc.Run(tr)
+        sc.execute(sc.make_service(tr, warm, wr), warm, wr)
+        if before == 'replay':
+            rid0 = rigm.last_saved_id(r)
+            w2 = sc.Plan([sc.op_of('A', 1), sc.op_of('O', 1)], vals)
+            wr2 = sc.Run(tr)
+            S2 = sc.make_service(tr, w2, wr2)
+            tr.play(rid0, lambda recording: sc.execute(S2, w2, wr2))
+        if not ctx.REAL:
+            trmod.time = Clock([t0, t1], den)
     plan = sc.Plan(script, vals)
     if how:
         if where < 0:
@@ -119,7 +144,7 @@ def _metadata_truth(script, vals, how, where, in_body, extractor, class_level, t
             out = sc.execute(Svc, plan, run1)
     tr.enable_recording()
     rid = rigm.last_saved_id(r)
-    if rid is None:
+    if rid is None or (before == 'replay' and rid == rid0):
         return ctx.done(False)
     meta = r.inner.get_recording(rid).get_metadata()
     ok = meta.get(TapeRecorder.OPERATION_CLASS) is Svc if not ctx.REAL else TapeRecorder.OPERATION_CLASS in meta
@@ -129,6 +154,12 @@ def _metadata_truth(script, vals, how, where, in_body, extractor, class_level, t
     else:
         ok = ok and d is not None and abs(d - (float(t1) / den - float(t0) / den)) < 1e-9 and d >= 0
     ok = ok and isinstance(meta.get(TapeRecorder.RECORDED_AT), str)
+    if not ctx.REAL:
+        ok = ok and meta.get(TapeRecorder.RECORDED_AT) == 'UTC-INSTANT'
+    else:
+        import datetime as _dt
+        stamp = _dt.datetime.strptime(meta.get(TapeRecorder.RECORDED_AT)[:19], '%Y-%m-%d %H:%M:%S')
+        ok = ok and abs((stamp - _dt.datetime.utcnow()).total_seconds()) < 300
     interrupted = (how == 2)
     ok = ok and meta.get(TapeRecorder.INCOMPLETE_RECORDING) is interrupted
     if not interrupted:
@@ -164,7 +195,10 @@ CONDITIONS = [
     {'fn': 'caller_context_and_switch_off', 'nontrivial': 'interrupted-midway',
      'what': 'same oracle when the caller is handling an exception itself, and when recording is disabled mid-operation',
      'tiers': {'quick': {'bounds': _QB, 'timeout': 500,
-                         'shards': [{'first': f, 'how': h} for f in _QOPS for h in (0, 1, 2)], 'witness_shard': _W},
+                         'shards': [{'first': f, 'how': h} for f in _QOPS for h in (0, 1, 2)] +
+                                   [{'first': _o('A', 1), 'how': 2, 'before': b} for b in ('replay', 'discarded')], 'witness_shard': _W},
                'thorough': {'bounds': _TB, 'timeout': 6000,
-                            'shards': [{'first': f, 'how': h} for f in [None] + _TOPS for h in (0, 1, 2)], 'witness_shard': _W}}},
+                            'shards': [{'first': f, 'how': h} for f in [None] + _TOPS for h in (0, 1, 2)] +
+                                      [{'first': f, 'how': h, 'before': b} for f in _TOPS for h in (0, 1, 2) for b in ('replay', 'discarded')],
+                            'witness_shard': _W}}},
 ]
